@@ -52,7 +52,7 @@ pub fn det_source(idx: u64) -> String {
     if rng.chance(1, 2) {
         s.push_str(&format!("const char msg[] = \"{}\";\n", rng.pick(WORDS)));
     }
-    s.push_str("void pr1(char *x) { p = x; }\nvoid pr2(char *x, char *y) { p = x; q = y; }\nvoid pr3(char *x, char *y, char *z) { p = x; q = z; p = y; }\n");
+    s.push_str("void pr1(char *x) { p = x; }\nvoid pr2(char *x, char *y) { p = x; q = y; }\nvoid pr3(char *x, char *y, char *z) { p = x; q = z; p = y; }\nchar pk2(char *x, char *y) { p = x; q = y; return 3; }\nchar pk4(char *w, char *x, char *y, char *z) { p = w; q = z; p = x; q = y; return 5; }\n");
     // functions f0..fn-1 : prototypes in a shuffled order, definitions in another
     let nf = rng.range(2, 7) as usize;
     let mut order: Vec<usize> = (0..nf).collect();
@@ -101,7 +101,21 @@ pub fn det_source(idx: u64) -> String {
         s.push_str(&format!("void f{}({}) {{\n", f, sig(*f)));
         let nl = rng.range(0, 3);
         for l in 0..nl {
-            s.push_str(&format!("  unsigned char l{} = {};\n", l, rng.below(100)));
+            let val = rng.below(100);
+            // every fifth source: the initialiser of a local holds several string literals (they are
+            // collected by a path of their own, parse_expr_init_value)
+            match (idx % 5, l) {
+                (2, 0) => s.push_str(&format!("  unsigned char l{} = pk2(\"{}\", \"{}\") + {};\n", l, WORDS[(idx as usize + 1) % WORDS.len()], WORDS[(idx as usize / 5 + 3) % WORDS.len()], val)),
+                (2, _) => s.push_str(&format!(
+                    "  unsigned char l{} = pk4(\"{}\", \"{}\", \"q{}\", \"z{}\");\n",
+                    l,
+                    WORDS[(idx as usize + 2) % WORDS.len()],
+                    WORDS[(idx as usize / 7 + 5) % WORDS.len()],
+                    val,
+                    idx % 13
+                )),
+                _ => s.push_str(&format!("  unsigned char l{} = {};\n", l, val)),
+            }
         }
         let ns = rng.range(1, 4);
         for _ in 0..ns {
@@ -369,6 +383,7 @@ pub fn c05_pins() -> Vec<(&'static str, &'static str)> {
     vec![
         ("literal_order", "char *p; char *q;\nvoid pr2(char *x, char *y) { p = x; q = y; }\nvoid main() { pr2(\"hello\", \"world\"); p = \"abc\", q = \"defg\"; }\n"),
         ("parameter_rank", "unsigned char a;\nvoid f(unsigned char v, char *w);\nvoid g(unsigned char v);\nvoid f(unsigned char v, char *w) { a = v; }\nvoid g(unsigned char v) { a = v; }\nvoid main() { f(1, \"x\"); g(2); csleep(5); }\n"),
+        ("local_initialiser_literal_order", "char *p; char *q;\nchar pk4(char *w, char *x, char *y, char *z) { p = w; q = z; p = x; q = y; return 1; }\nvoid main() { unsigned char first = pk4(\"alpha\", \"beta!\", \"gamma\", \"delta\"); unsigned char second = pk4(\"eps\", \"zeta\", \"eta\", \"theta\") + pk4(\"i\", \"k\", \"l\", \"m\"); p = \"tail\"; }\n"),
         ("function_order", "unsigned char a;\nvoid f(); void g();\nvoid f() { a = 1; }\nvoid h() { a = 2; }\nvoid g() { a = 3; }\nvoid k();\nvoid main() { f(); g(); h(); }\nvoid k() { a = 4; }\n"),
     ]
 }
